@@ -28,7 +28,8 @@ LEVEL_TEXT = ("For every McpPydanticBase subclass found by walking chuk_mcp.prot
               ' Also 80 wire objects pinned from the 2025-06-18 specification (vf/spec_examples.py) for 45 models, and unknown members spelled like the Python name of an aliased field.'
               ' Also, at every model-typed position, the object whose required members hold the empty value of their type; and every module imported in a process where Pydantic cannot be imported at all.'
               ' Also every case validated by four threads released together (the fallback backend, first use of each class in the process), compared with the single-threaded Pydantic run.'
-              ' Also what == gives for each validated object against the same wire object validated again and against the previous object of its class.')
+              ' Also what == gives for each validated object against the same wire object validated again and against the previous object of its class.'
+              " Also the JSON text form with the method's own defaults (model_dump_json() without arguments), parsed back and compared.")
 LEVEL_NOTE = ("Trusted: MCP_FORCE_FALLBACK=1 selects the fallback (each worker reports PYDANTIC_AVAILABLE; the run is "
               "inconclusive if the two reports do not differ); the generator's notion of spec-valid (required present, "
               "Literals at their value, no explicit null for optional members). Transport parameter classes are config "
